@@ -139,6 +139,22 @@ def run(ctx):
         ctx.cov['parts']['renderings_' + gname] = complete
         if complete == 0:
             raise core.MachineryError('group %s produced no complete rendering' % gname)
+    # hostile trailing comments (body contains '#' or an odd number of quotes): explored separately so that the
+    # documented limitation of pydl (known finding D-C02-3) cannot mask, or be masked by, anything else
+    r = ctx.tlc('MC_YannyLayout.tla', 'MC_YannyLayout_hostile.cfg', dump=True, label='MC_YannyLayout_hostile.cfg')
+    nh = 0
+    for st in core.iter_states(r):
+        cn, nitems = canon[st['id']]
+        if len(st['done']) != nitems:
+            continue
+        txt = Y.text(st['text'])
+        nh += 1
+        ctx.validated()
+        ctx.nontriv(hash(txt))
+        case = check_text(ctx, txt, cn, WAYS_LIGHT, 'rendering of %s with hostile trailing comments' % st['id'], {'doc': st['id'], 'group': 'hostile'})
+        if case:
+            ctx.violation(case, finding='D-C02-3')
+    ctx.cov['parts']['renderings_hostile'] = nh
     if not ctx.quick:
         simulate_all(ctx, canon, seen)
     recorded_direction(ctx, rng)
@@ -202,7 +218,8 @@ def recorded_direction(ctx, rng):
         n += 1
         ctx.validated()
         ctx.nontriv(hash(t))
-        finding = 'D-C02-4' if 'brace-in-typedef-comment' in st['notes'] else None
+        finding = 'D-C02-4' if 'brace-in-typedef-comment' in st['notes'] else \
+            ('D-C02-3' if 'hostile-trailing-comment' in st['notes'] else None)
         case = check_text(ctx, t, st['res'], WAYS_LIGHT, 'recorded text %s' % name, {'source': name})
         if case:
             case['spec_notes'] = sorted(st['notes'])
